@@ -44,6 +44,10 @@ pub struct Case {
     /// with the 48K BASIC ROM selected and then issued another, ignored, paging write
     #[serde(default)]
     pub prelude: u8,
+    /// the host's debugger has a breakpoint on the ROM address where the fast-load trap fires
+    /// (LD-BREAK, 0x056B) and resumes whenever it is hit
+    #[serde(default)]
+    pub break_at_trap: bool,
 }
 
 pub const STUB: u16 = 0xBE00;
@@ -190,8 +194,13 @@ pub fn check(c: &Case, rec: &mut Rec) -> Result<(), String> {
         off += 2 + b.len();
         complete.push(off <= image.len());
     }
-    let mut rig = mk_rig(c.machine, c.ram_seed, true);
-    match c.prelude % 3 {
+    // preludes 4: fast loading is off when the emulator is created and switched on at run time
+    let mut rig = mk_rig(c.machine, c.ram_seed, c.prelude % 6 != 4);
+    if c.prelude % 6 == 4 {
+        rig.e.set_fast_load(true);
+        rec.class("prelude:fast-loading-switched-on-at-run-time");
+    }
+    match c.prelude % 6 {
         1 => {
             use crate::formats::szx;
             let is128 = c.machine == Machine::K128;
@@ -227,6 +236,38 @@ pub fn check(c: &Case, rec: &mut Rec) -> Result<(), String> {
         _ => {}
     }
     rig.e.load_tape(Tape::Tap(DynAsset::new(MemAsset::new(image.clone())))).map_err(|x| format!("load_tape: {:?}", x))?;
+    if c.prelude % 6 == 3 {
+        // the user pressed PLAY and STOP (no emulated time in between): the deck is stopped at the start
+        rig.e.play_tape();
+        rig.e.stop_tape();
+        rec.class("prelude:play-then-stop-before-the-requests");
+    }
+    if c.break_at_trap {
+        rec.class("debugger-breakpoint-on-the-trap-address");
+    }
+    if c.prelude % 6 == 5 {
+        // fast loading was on at construction and is switched off at run time: the deck is stopped,
+        // so a request finds a silent tape and nothing may be taken from the tape image
+        rig.e.set_fast_load(false);
+        if let Some(rq) = c.requests.first() {
+            let r = resolve(rq, blocks.first());
+            setup_call(&mut rig, &r);
+            rec.eval();
+            if mach::run_to(&mut rig.e, &[RET_ADDR], 12)?.is_some() {
+                let regs = mach::get_regs(&mut rig.e);
+                if regs.af & 1 == 1 || regs.ix != r.ix {
+                    return Err(format!(
+                        "fast loading switched off at run time, deck stopped: LD-BYTES (A={:#04x} IX={:#06x} DE={:#06x}) returned with carry={} IX={:#06x} — a block was taken from a tape that is not playing",
+                        r.a, r.ix, r.de, regs.af & 1, regs.ix
+                    ));
+                }
+            }
+            compare_memory(&rig, "fast loading switched off at run time, deck stopped")?;
+            rec.class("prelude:fast-loading-switched-off-at-run-time");
+            rec.nontrivial(fnv(format!("{:?}", c).as_bytes()));
+        }
+        return Ok(());
+    }
     for (k, rq) in c.requests.iter().enumerate() {
         let block = blocks.get(k);
         let r = resolve(rq, block);
@@ -300,7 +341,20 @@ pub fn check(c: &Case, rec: &mut Rec) -> Result<(), String> {
         let mut rd = |a: u16| snapshot_mem.read(a);
         let want = ld_bytes(block, &r, &mut rd);
         // emulator
-        let hit = match mach::run_to(&mut rig.e, &[RET_ADDR], 10) {
+        let run = |rig: &mut Rig| -> Result<Option<u16>, String> {
+            if !c.break_at_trap {
+                return mach::run_to(&mut rig.e, &[RET_ADDR], 10);
+            }
+            // stop on the trap address as well and resume each time
+            for _ in 0..64 {
+                match mach::run_to(&mut rig.e, &[RET_ADDR, 0x056B], 10)? {
+                    Some(0x056B) => continue,
+                    other => return Ok(other),
+                }
+            }
+            Ok(None)
+        };
+        let hit = match run(&mut rig) {
             Ok(h) => h,
             Err(e) => {
                 if truncated {
@@ -399,9 +453,9 @@ pub fn case_strategy() -> impl Strategy<Value = Case> {
         prop_oneof![5 => Just(0u16), 1 => 1u16..300],
         proptest::collection::vec(rq_strategy(), 1..=8),
         any::<u64>(),
-        prop_oneof![3 => Just(0u8), 1 => Just(1), 1 => Just(2)],
+        prop_oneof![3 => Just(0u8), 1 => Just(1), 1 => Just(2), 1 => Just(3), 1 => Just(4), 1 => Just(5)],
     )
-        .prop_map(|(machine, blocks, truncate, requests, ram_seed, prelude)| Case { machine, blocks, truncate, requests, ram_seed, prelude })
+        .prop_map(|(machine, blocks, truncate, requests, ram_seed, prelude)| Case { machine, blocks, truncate, requests, ram_seed, prelude, break_at_trap: ram_seed % 5 == 2 })
 }
 
 #[derive(Clone, Debug, Serialize, Deserialize)]
@@ -485,6 +539,7 @@ pub fn probe_end_of_tape_success() -> Result<bool, String> {
         requests: vec![Rq { a_mode: 0, a: 0xFF, load: true, ix: 0x8000, de_mode: 5, de: 100, verify_mismatch_at: None }],
         ram_seed: 1,
         prelude: 0,
+        break_at_trap: false,
     };
     let mut rec = Rec::default();
     match check(&c, &mut rec) {
@@ -516,7 +571,7 @@ pub fn replay(run: &mut Run, phase: &str, case: &serde_json::Value) -> Result<()
 }
 
 pub const LEVEL: &str = "exploration";
-pub const RULE: &str = "case = machine (128K with the 48K BASIC ROM paged) x TAP image of 0..6 blocks (flag 0x00/0xFF/any, payload lengths biased to 0,1,2,17 and the 127/128/129 and 255/256/257/258 buffer boundaries, up to 2000, right or wrong checksum, optionally a truncated tail) x sequence of 1..8 calls of the ROM routine at 0x0556 from a RAM stub (A = block flag or generated, LOAD or VERIFY, IX anywhere incl. ROM and the 0xFFFF wrap, DE around the block length, 0, 1, >= 0xFF00, uniform; VERIFY memory pre-filled to match or mismatch at a chosen index), continuing past the end of the tape. Oracle: LD-BYTES semantic model written from the ROM listing; compared at the return address: carry, IX, DE and all RAM outside system variables and the stack page. Past the end: within 150 frames the routine must not return with carry set and IX, DE, AF' must be intact. play-pressed-after-the-end: a one-block tape is fast-loaded, a second request is left waiting at the end, the host presses PLAY: the waiting request must receive block 1 in real time with the result LD-BYTES gives for it. non-trivial = request that is not 'matching flag, LOAD, DE = length' or a block longer than 128 bytes; distinct = hash of (case, request index)";
+pub const RULE: &str = "case = machine (128K with the 48K BASIC ROM paged) x TAP image of 0..6 blocks (flag 0x00/0xFF/any, payload lengths biased to 0,1,2,17 and the 127/128/129 and 255/256/257/258 buffer boundaries, up to 2000, right or wrong checksum, optionally a truncated tail) x sequence of 1..8 calls of the ROM routine at 0x0556 from a RAM stub (A = block flag or generated, LOAD or VERIFY, IX anywhere incl. ROM and the 0xFFFF wrap, DE around the block length, 0, 1, >= 0xFF00, uniform; VERIFY memory pre-filled to match or mismatch at a chosen index), continuing past the end of the tape; preludes: nothing / an SZX snapshot loaded first / latch locked then an ignored paging write / PLAY and STOP pressed before the requests / fast loading off at construction and switched on at run time / on at construction and switched off at run time (then nothing may be loaded from the stopped deck); in a fifth of the cases the host's debugger has a breakpoint on the trap address 0x056B and resumes on every hit. Oracle: LD-BYTES semantic model written from the ROM listing; compared at the return address: carry, IX, DE and all RAM outside system variables and the stack page. Past the end: within 150 frames the routine must not return with carry set and IX, DE, AF' must be intact. play-pressed-after-the-end: a one-block tape is fast-loaded, a second request is left waiting at the end, the host presses PLAY: the waiting request must receive block 1 in real time with the result LD-BYTES gives for it. non-trivial = request that is not 'matching flag, LOAD, DE = length' or a block longer than 128 bytes; distinct = hash of (case, request index)";
 pub const ASSUMPTIONS: &[&str] = &[
     "LD-BYTES model from the ROM disassembly (flag compare skipped when D = 0xFF, store/compare order, parity over all bytes, DE = 0 shortcut, short block = time-out failure, long block = parity failure); cross-checked against the real ROM code running in real time by C11's system-level phase",
     "A, H, L, the zero flag are not compared; system variables 0x5C00-0x5CBF and the stack/stub page 0xBD00-0xBFFF are excluded from the memory comparison",
